@@ -79,6 +79,48 @@ CLAIMS = {
         design_ref="5/C17",
         note=TRUST + "; run-to-run byte equality itself is differential (processes, hash seeds), the theorem covers the logic that could break it",
         technique="Lean 4 proof (CLI->settings map, order-independence) + source inventory + differential byte comparison"),
+    "C01": dict(
+        category="proof",
+        text=("Theorems C01_lr_accepts_exactly (Ok iff sentence, for every token string), C01_accepted_is_sentence, "
+              "C01_sentence_is_accepted (JPL-style completeness by mutual structural recursion on the derivation tree: closure, "
+              "transition and reduce completeness + determinism + re-lexing after every reduction) and "
+              "C01_deterministic_is_unambiguous, for the token-level LR machine `tparse` (the shift/reduce/goto core that the byte-level "
+              "model of LRParser::parse provably refines) over ANY table passing the executable certificate certC01 = structural + "
+              "completeness (lookahead post-fixpoint with a verified FIRST/nullable post-fixpoint, reduce entries for every lookahead, "
+              "at most one action per cell) + accept only on STOP. Tie B: the certificate is executed on the table dumped from the "
+              "real compiler for every generated grammar x {LALR, LALR_PAGER} (passing it also means no disambiguation took effect). "
+              "Tie A: tparse, the byte-level model and the real LRParser are run on every input (all strings up to a length bound, "
+              "sentences, mutations) and compared with an independent membership oracle. Universality over grammars is by running "
+              "the verified certificate on each generated grammar, not by a theorem about the construction algorithm; the step 'string "
+              "lexer on distinct single-character terminals = offer the next token iff the state has an action for it' is validated by "
+              "that three-way comparison, not proved."),
+        design_ref="5/C01",
+        note=TRUST + "; terminals are distinct single characters in C01's generated grammars (overlapping terminals are C06)",
+        technique="Lean 4 proof (LR soundness + completeness over verified table certificates) + differential correspondence + membership oracle"),
+    "C07": dict(
+        category="proof",
+        text=("PARTIAL. Proved: C07_lr_tree_is_the_unique_derivation (on a certified deterministic table the tree the LR parser returns "
+              "is the only derivation tree of the input) and C07_single_solution_is_lr_tree (a forest containing exactly the derivation "
+              "trees, each once, then has exactly one solution, the LR tree), on top of C01 (LR accepts exactly the sentences) and C03 "
+              "(the forest API enumerates each tree of the forest once). NOT proved: that the GSS engine puts exactly the derivation trees "
+              "into the forest, and span equality. Decided on every generated input by comparing the two real parsers built from the "
+              "same grammar: Ok/Err, solutions() = 1, node-by-node equality of production, token kind/span/value and nonterminal span "
+              "up to elided trailing empty children."),
+        design_ref="5/C07",
+        note=TRUST + "; GLR engine sampled; scope = grammars whose LALR_PAGER items pass Table.rawDeterministic",
+        technique="Lean 4 proof (uniqueness of the LR tree) + differential comparison of the real LR and GLR parsers"),
+    "C12": dict(
+        category="proof",
+        text=("PARTIAL. Proved: C12_sentences_never_error and C12_error_only_on_nonsentence (certified deterministic table: a run on a "
+              "sentence can only end in accept; a reported error implies the input is no sentence), C12_error_expected_nonempty (the "
+              "error carries a non-empty expected list and the position reached after skipping layout, the start of the rejected token). "
+              "NOT proved: that the rejected token is the FIRST token that cannot continue any sentence (merged lookaheads delay the "
+              "error only by reductions), and the GLR half; both decided by an independent Earley viable-prefix oracle on mutations, "
+              "truncations, foreign characters and whitespace/newline variants for the real LR and GLR parsers (offset, line/column, "
+              "non-empty expected list)."),
+        design_ref="5/C12",
+        note=TRUST + "; scope: reduced grammars (every nonterminal productive) in C01/C03 scope",
+        technique="Lean 4 proof (completeness corollaries) + differential correspondence + Earley viable-prefix oracle"),
     "C03": dict(
         category="proof",
         text=("PARTIAL. Proved (C03_forest_enum, C03_by_index_is_all, C03_iteration_is_all): for EVERY well-formed SPPF shape the "
